@@ -15,22 +15,39 @@ def parse(stdout):
     return recs
 
 
+RAW_ID_FIELDS = {"mir", "bcx", "diag"}   # raw listings: differ by F17 / F20 / F19 classes (see C15); their normalised forms are compared
+
+
+def fields_of(digests):
+    return dict(x.split("=", 1) for x in digests if "=" in x)
+
+
+def solo_refs(paths):
+    """reference of a job = the same source compiled and run ALONE in a FRESH process (in-process history is exactly what
+    an order-by-interner-id bug exploits, so an in-process reference would hide it)"""
+    out = {}
+    for f, dt, recs in c15.measure_costs(paths):
+        if recs:
+            out[f] = {"status": recs[0][4], "nontrivial": recs[0][6] == "1", "fields": fields_of(recs[0][7:]), "cost": dt}
+    return out
+
+
 def run_round(job):
-    """one process, K threads; returns dict with J records and problems"""
-    name, k, paths, lists, jitter, timeout = job
-    a = ["jobs", "--timeout", str(timeout), "--jitter", str(jitter), "--dump", os.path.join(c15.WORK, "C19dump", name),
-         "--paths", ",".join(paths)]
+    """one process, K threads; every job result is compared with its fresh-process solo reference"""
+    name, k, paths, lists, jitter, timeout, refs = job
+    dump = os.path.join(c15.WORK, "C19dump", name)
+    a = ["jobs", "--noref", "1", "--timeout", str(timeout), "--jitter", str(jitter), "--dump", dump, "--paths", ",".join(paths)]
     for l in lists:
         a += ["--thread", ",".join(map(str, l))]
     t0 = time.time()
+    base = {"round": name, "threads": k, "paths": paths, "lists": lists, "jitter": jitter}
     try:
         p = mmh("C19", a, timeout=timeout + 120)
     except Exception as e:
-        return {"name": name, "k": k, "jobs": 0, "problems": [{"kind": "watchdog-timeout(deadlock?)", "round": name, "threads": k,
-                "paths": paths, "lists": lists, "jitter": jitter, "err": str(e)[:200]}], "refs": {}, "wall": time.time() - t0}
+        return {"name": name, "k": k, "jobs": 0, "problems": [dict(base, kind="watchdog-timeout(deadlock?)", err=str(e)[:200])],
+                "wall": time.time() - t0, "nontrivial": set(), "crossed": 0}
     r = parse(p.stdout)
-    res = {"name": name, "k": k, "jobs": len(r["J"]), "problems": [], "refs": {f[2]: f[3:] for f in r["REF"]}, "wall": time.time() - t0}
-    base = {"round": name, "threads": k, "paths": paths, "lists": lists, "jitter": jitter}
+    res = {"name": name, "k": k, "jobs": len(r["J"]), "problems": [], "wall": time.time() - t0, "nontrivial": set(), "crossed": 0}
     if r["DEADLOCK"]:
         res["problems"].append(dict(base, kind="deadlock", unfinished_threads=r["DEADLOCK"][0][1:]))
     elif r["DIED"] or p.returncode != 0 or not r["DONE"]:
@@ -39,10 +56,118 @@ def run_round(job):
     if not res["problems"] and len(r["J"]) != expect:
         res["problems"].append(dict(base, kind="missing-results", got=len(r["J"]), expected=expect))
     for f in r["J"]:
-        if f[4] != "1":
-            res["problems"].append(dict(base, kind="interference", thread=int(f[1]), job=int(f[2]), target=f[3], status=f[5],
-                                        differs_in=[x for x in f[6].split(",") if x]))
+        # J, thread, job, path, same, status, differing, nontrivial, digests...
+        path, status, got = f[3], f[5], fields_of(f[8:])
+        ref = refs.get(path)
+        if ref is None:
+            continue
+        if ref["nontrivial"]:
+            res["nontrivial"].add(path)
+        if os.sep + "C19gen" + os.sep in path:
+            res["crossed"] += 1
+        diff = [k2 for k2 in ref["fields"] if got.get(k2) != ref["fields"][k2]]
+        if status != ref["status"]:
+            diff.append("status")
+        if diff:
+            res["problems"].append(dict(base, kind="interference", thread=int(f[1]), job=int(f[2]), target=path, status=status,
+                                        solo_status=ref["status"], differs_in=diff,
+                                        dump=os.path.join(dump, f"t{f[1]}.j{f[2]}.{paths.index(path)}")))
     return res
+
+
+# ---------------------------------------------------------------------------------------------------------------
+# jobs that share FRESH identifiers and mention them in crossed orders
+
+def crossed_pair(kind, tag):
+    """two programs A, B. A writes its record/constructor names (a < z) in alphabetical order but mentions B's names (y, b)
+    first in the opposite order, and vice versa: whichever thread interns first, the other job sees its own names with ids
+    in non-alphabetical order. Alone in a fresh process each job interns its own names in the order it writes them."""
+    n = lambda x: f"{x}_{tag}"
+    a, b, y, z = n("alpha"), n("beta"), n("yota"), n("zeta")
+    cap = lambda x: "C" + x
+
+    def prog(p1, p2, r1, r2, k):
+        pre = f"fn pre({p1},{p2}){{ {p1} - {p2} }}\n"
+        if kind == "closure":      # record holding a closure next to a wider field, returned from a function
+            return pre + f"fn mk(n){{ {{{r1} = |x| x + n, {r2} = (10.0, 20.0)}} }}\nfn dsp(){{\n  let r = mk({k}.0)\n  r.{r1}(1.0)*100.0 + r.{r2}.1 + pre(3.0,3.0)\n}}\n"
+        if kind == "diag":         # type mismatch whose message prints the record type
+            return pre + f"fn dsp(){{\n  let r:float = {{{r1} = 1.0, {r2} = 2.0}}\n  r + pre(3.0,3.0)\n}}\n"
+        if kind == "annot":        # annotated record type + literal + destructuring
+            return pre + f"type alias R = {{{r1}:float, {r2}:(float,float)}}\nfn dsp(){{\n  let x:R = {{{r1} = {k}.0, {r2} = (2.0, 3.0)}}\n  let {{{r1} = u, {r2} = v}} = x\n  u * 100.0 + v.1 + x.{r2}.0 + pre(3.0,3.0)\n}}\n"
+        if kind == "stateful":     # stateful field initialisers: slot order shows in the state layout
+            return pre + f"fn cnt(inc){{ self + inc }}\nfn dsp(){{\n  let r = {{{r1} = delay(4.0, cnt(1.0), 2.0), {r2} = cnt({k}.0)}}\n  r.{r1} * 1000.0 + r.{r2} + pre(3.0,3.0)\n}}\n"
+        if kind == "ctor":         # constructors of a sum type
+            return (f"type P = {cap(p1)}(float) | {cap(p2)}\n" + f"type T = {cap(r1)}(float) | {cap(r2)}((float,float)) | Other\n"
+                    f"fn f(e:T){{\n  match e {{\n    {cap(r1)}(v) => v * 2.0,\n    {cap(r2)}((u,w)) => u + w,\n    Other => 0.0\n  }}\n}}\n"
+                    f"fn dsp(){{\n  f({cap(r1)}({k}.0)) * 100.0 + f({cap(r2)}((1.0,2.0))) + f(Other)\n}}\n")
+        if kind == "tparam":       # explicit type parameters + module members
+            return (pre + f"fn pick(u:{r1}, w:{r2}) -> {r2} {{ w }}\nmod m_{tag} {{\n  pub fn {r1}(x){{ x + 1.0 }}\n  pub fn {r2}(x){{ x * 2.0 }}\n}}\n"
+                    f"fn dsp(){{\n  pick(1.0, {k}.0) + m_{tag}::{r2}(2.0) + m_{tag}::{r1}(3.0) + pre(3.0,3.0)\n}}\n")
+        raise ValueError(kind)
+    return [prog(y, b, a, z, 5), prog(z, a, b, y, 7)]
+
+
+def garbled_symbol_text(p):
+    """class predicate of finding F8: the job's concurrent diagnostics name a file / variable whose text is not an
+    identifier of the job's own source (NUL / U+FFFD bytes, or a `File <dir>/<stem>.mmm not found` with a foreign stem):
+    the name was read through a dangling `Symbol::as_str` slice after another thread's interning moved the buffer"""
+    import re
+    if p.get("solo_status") != "ok" or p.get("status") == "ok":
+        return False
+    q = p.get("dump", "") + ".diag"
+    if not os.path.exists(q):
+        return False
+    diag = open(q, errors="replace").read()
+    if "\x00" in diag or "\ufffd" in diag:
+        return True
+    try:
+        ids = set(c15.identifiers(open(p["target"], errors="replace").read()))
+    except OSError:
+        return False
+    for m in re.finditer(r"File (\S*?)\.mmm not found", diag):
+        if os.path.basename(m.group(1)) not in ids:
+            return True
+    return False
+
+
+def asstr_probe():
+    """F8 witness without reading freed memory: how often does the text of a symbol MOVE while an `as_str()` slice is held"""
+    try:
+        p = mmh("C19", ["asstr", "8", "300"], timeout=120)
+        r = parse(p.stdout)["ASSTR"]
+        if r:
+            return {"checks": int(r[0][1]), "slices_left_dangling": int(r[0][2]), "first": r[0][3] if len(r[0]) > 3 else ""}
+        return {"crashed_rc": p.returncode}
+    except Exception as e:
+        return {"error": str(e)[:200]}
+
+
+KINDS = ["closure", "diag", "annot", "stateful", "ctor", "tparam"]
+
+
+def crossed_round(r, name, k, regular, steps, jitter, timeout):
+    """K threads; in each of the first `steps` positions the threads 2g, 2g+1 run the two programs of a fresh crossed pair"""
+    d = os.path.join(c15.WORK, "C19gen", name)
+    os.makedirs(d, exist_ok=True)
+    paths, lists = [], [[] for _ in range(k)]
+    for st in range(steps):
+        for g in range(max(1, k // 2)):
+            kind = KINDS[(st * 7 + g + r.randrange(len(KINDS))) % len(KINDS)]
+            tag = f"{name.replace('-', '_')}_s{st}g{g}"
+            for i, src in enumerate(crossed_pair(kind, tag)):
+                p = os.path.join(d, f"{kind}_{tag}_{'AB'[i]}.mmm")
+                if not os.path.exists(p) or open(p).read() != src:
+                    open(p, "w").write(src)
+                paths.append(p)
+                t = 2 * g + i
+                if t < k:
+                    lists[t].append(len(paths) - 1)
+    reg = r.sample(regular, min(len(regular), 4))
+    for f in reg:
+        paths.append(f)
+    for t in range(k):
+        lists[t] += [len(paths) - len(reg) + ((t + j) % len(reg)) for j in range(2)] if reg else []
+    return (name, k, paths, lists, jitter, timeout)
 
 
 def make_round(r, name, k, pool, per_thread, jitter, timeout):
@@ -65,7 +190,7 @@ def main(ctx, args):
         "threads obtain ids only as results of their own earlier calls (handles)",
         "real schedules are SAMPLED (OS scheduler, K in {2,4,8,16}, barrier start + seeded jitter), not enumerated; the theorems quantify over all schedules of the model only",
         "type-variable cells (Arc<RwLock<TypeVar>>) are per compilation and not modelled; Symbol::as_str lifetime extension (F8) is outside the model",
-        "each thread's result is compared with the single-threaded result of the same source in the same process (all artefacts of C15: diagnostics, bytecode, WASM, MIR, skeleton, 32 VM samples, Rust), raw-id listings (F17) and type-scheme numbering (F20) normalised as in C15",
+        "each thread's result is compared with the result of the same source compiled alone in a fresh process (all artefacts of C15: diagnostics, bytecode, WASM, MIR, skeleton, 32 VM samples, Rust), raw-id listings (F17) and type-scheme numbering (F20) normalised as in C15",
     ]
     known = load_known("C19")
     if not extract(ctx):
@@ -82,41 +207,75 @@ def main(ctx, args):
     if args.replay:
         rp = json.load(open(args.replay))
         if "lists" in rp:
-            for rep in range(5):
-                res = run_round((rp.get("round", "replay") + f"-r{rep}", rp["threads"], rp["paths"], rp["lists"], rp.get("jitter", 1) + rep, 300))
+            for path, src in rp.get("sources", {}).items():   # generated jobs are part of the replay
+                if not os.path.exists(path):
+                    os.makedirs(os.path.dirname(path), exist_ok=True)
+                    open(path, "w").write(src)
+            refs = solo_refs(sorted(set(rp["paths"])))
+            for rep in range(6):
+                res = run_round((rp.get("round", "replay") + f"-r{rep}", rp["threads"], rp["paths"], rp["lists"], rp.get("jitter", 1) + rep, 300, refs))
                 rounds.append(res)
                 problems += res["problems"]
         icorr = c15.interner_correspondence("C19", ctx.seed, 1, 4, threaded=True)
     else:
         files = c15.corpus_files() + c15.generated_files(ctx.seed, 40 if quick else 200)
-        files += sorted(glob.glob(os.path.join(VERIF, "corpus", "C19", "*.mmm")))
-        costs = c15.measure_costs(files)
-        cheap = sorted([f for f, dt, recs in costs if dt < 0.25 and recs], key=c15.weight, reverse=True)
-        heavy = [f for f, dt, recs in costs if 0.25 <= dt < 3.0 and recs]
+        files += sorted(glob.glob(os.path.join(VERIF, "corpus", "C19", "*.mmm")) + glob.glob(os.path.join(VERIF, "corpus", "C15", "s_*.mmm")))
+        refs = solo_refs(files)          # every source alone in a fresh process
+        cheap = sorted([f for f in files if f in refs and refs[f]["cost"] < 0.25], key=c15.weight, reverse=True)
+        heavy = [f for f in files if f in refs and 0.25 <= refs[f]["cost"] < 3.0]
         jobs = []
         nrounds = 3 if quick else 12
+        ncross = 6 if quick else 24
         for k in (2, 4, 8, 16):
             for i in range(nrounds):
                 per = (24 if quick else 60) // max(1, k // 4) if k > 4 else (24 if quick else 60)
                 jobs.append(make_round(r, f"K{k}-{i}", k, cheap, per, ctx.seed * 131 + k * 17 + i, 240))
             jobs.append(make_round(r, f"K{k}-heavy", k, heavy or cheap, 2 if quick else 4, ctx.seed + k, 600))
+            for i in range(ncross):
+                jobs.append(crossed_round(r, f"X{ctx.seed}K{k}-{i}", k, cheap[:60], 3, ctx.seed * 977 + k * 31 + i, 240))
+        gen_paths = sorted(set(p for j in jobs for p in j[2] if p not in refs))
+        refs.update(solo_refs(gen_paths))
+        jobs = [j + (refs,) for j in jobs]
         # rounds are themselves run a few at a time (each is a multi-threaded process)
         rounds = parallel(jobs, run_round, nproc=3)
         for res in rounds:
             problems += res["problems"]
         icorr = c15.interner_correspondence("C19", ctx.seed, 8 if quick else 32, 30 if quick else 150, threaded=True)
+        ctx.coverage["fresh_process_solo_references"] = len(refs)
     ctx.coverage["concurrent_wall_s"] = round(time.time() - t0, 1)
     # ---- decide
     inter = [p for p in problems if p["kind"] == "interference"]
     other = [p for p in problems if p["kind"] != "interference"]
-    f17_like = [p for p in inter if set(p["differs_in"]) <= {"mir", "bcx", "diag"}]
-    real = [p for p in inter if p not in f17_like]
+    f17_like = [p for p in inter if set(p["differs_in"]) <= RAW_ID_FIELDS]
+    f8 = next((k for k in known if k.get("class") == "garbled-symbol-text"), None)
+    f8_hits = [p for p in inter if p not in f17_like and f8 and garbled_symbol_text(p)]
+    real = [p for p in inter if p not in f17_like and p not in f8_hits]
+    probe = asstr_probe()
+    ctx.coverage["as_str_slice_probe(F8)"] = probe
+    if f8:
+        ctx.known_finding(f"{f8['id']} {f8['what']} (jobs hit this run: {len(f8_hits)}; probe: {probe.get('slices_left_dangling')} of {probe.get('checks')} held slices left dangling)")
+        for p in f8_hits[:2]:
+            ctx.notes.append({"F8_case": {k2: p[k2] for k2 in ("round", "threads", "thread", "job", "target", "differs_in")},
+                              "diag": open(p["dump"] + ".diag", errors="replace").read()[:300]})
     if real:
         best = min(real, key=lambda p: os.path.getsize(p["target"]) if os.path.exists(p["target"]) else 1 << 30)
+        srcs = {q: open(q, errors="replace").read() for q in best["paths"] if os.sep + "C19gen" + os.sep in q and os.path.exists(q)}
+        shown = {}
+        for fld in ("diag", "out", "bc"):      # what the job saw, next to what it sees alone
+            q = best.get("dump", "") + "." + fld
+            if fld in best["differs_in"] + ["diag"] and os.path.exists(q):
+                shown[fld + "_concurrent"] = open(q, errors="replace").read()[:600]
+        solo_dump = os.path.join(c15.WORK, "C19dump", "solo")
+        c15.run_seq(["T:" + best["target"]], "solo", dump=solo_dump)
+        for fld in ("diag", "out", "bc"):
+            q = os.path.join(solo_dump, f"solo.0.{fld}")
+            if fld + "_concurrent" in shown and os.path.exists(q):
+                shown[fld + "_alone_in_fresh_process"] = open(q, errors="replace").read()[:600]
         best = dict(best, source=open(best["target"], errors="replace").read()[:3000] if os.path.exists(best["target"]) else None,
+                    sources=srcs, observed=shown,
                     replay_cmd="./check C19 --replay <this file>", interfering_cases=len(real),
-                    dump_dir=os.path.join(c15.WORK, "C19dump", best["round"]))
-        ctx.violation(f"thread {best['thread']} of {best['threads']} got a different {best['differs_in']} for {best['target']} than the single-threaded compilation ({len(real)} cases)", best)
+                    interfering_targets=sorted(set(os.path.basename(p["target"]) for p in real))[:20])
+        ctx.violation(f"thread {best['thread']} of {best['threads']} got a different {best['differs_in']} for {best['target']} than the same job alone in a fresh process ({len(real)} cases)", best)
     for p in other[:3]:
         ctx.violation(f"{p['kind']} with {p.get('threads')} threads (round {p.get('round')})", dict(p, replay_cmd="./check C19 --replay <this file>"),
                       found_input=p["kind"] in ("deadlock", "thread-died-or-crash", "watchdog-timeout(deadlock?)"))
@@ -130,9 +289,7 @@ def main(ctx, args):
     njobs = sum(x["jobs"] for x in rounds)
     distinct = set()
     for x in rounds:
-        for path, ref in x["refs"].items():
-            if ref and ref[1] == "1":
-                distinct.add(path)
+        distinct |= x["nontrivial"]
     byk = collections.Counter()
     for x in rounds:
         byk[str(x["k"])] += x["jobs"]
@@ -140,11 +297,13 @@ def main(ctx, args):
         "evaluations": njobs + icorr["schedules"],
         "distinct_nontrivial": len(distinct),
         "rule": "a case = one compile+run job executed by one of K concurrent threads (K in {2,4,8,16}; rounds of identical / distinct / mixed sources; barrier start + seeded jitter) "
-                "and compared, artefact by artefact, with the single-threaded result of the same source; watchdog timeout = deadlock, thread death = panic outside catch_unwind; "
+                "plus rounds of CROSSED jobs: pairs of generated programs that share identifiers never seen by the process and mention them in opposite orders (record literals holding closures, "
+                "record types in diagnostics, annotated records + destructuring, stateful field initialisers, constructors, type parameters, module members), started together at the barrier; "
+                "every job is compared, artefact by artefact (raw-id listings normalised as in C15), with the result of the same source compiled ALONE IN A FRESH PROCESS; watchdog timeout = deadlock, thread death = panic outside catch_unwind; "
                 "distinct = distinct source path, non-trivial = the source compiles to bytecode with at least one function. Plus real-thread schedules over the raw interner API vs the model's solo runs (up to renaming + one-string-one-id across threads)",
         "samples": [{"round": x["name"], "threads": x["k"], "jobs": x["jobs"], "wall_s": round(x["wall"], 1)} for x in rounds[:3]] + icorr["samples"],
-        "rounds": len(rounds), "jobs_by_threads": dict(byk),
-        "interference_cases": len(real), "id_listing_only_differences(F17/F19/F20 classes)": len(f17_like),
+        "rounds": len(rounds), "jobs_by_threads": dict(byk), "crossed_identifier_jobs": sum(x["crossed"] for x in rounds),
+        "interference_cases": len(real), "garbled_symbol_text_cases(F8)": len(f8_hits), "id_listing_only_differences(F17/F19/F20 classes)": len(f17_like),
         "deadlocks_or_crashes": len(other),
         "traces_validated_against_impl": icorr["schedules"],
         "interner_threaded_schedules": icorr["schedules"], "interner_up_to_renaming_checked": icorr["renaming_checked"],
